@@ -28,10 +28,11 @@ CLAIMED = {
 CLAIMED.update({
  "C01": ("Coq: the reducer chain of one action (threading, once each, result written whether Dispatch or Keep) for any "
          "reducers/middlewares; in every reachable world of the interleaving model (any programs, threads, capacity, "
-         "schedule) the state is the latest write-back and under BlockOnFull enqueued = taken ++ queued as lists. "
-         "Partial: the fold over the whole taken sequence is not yet a theorem over histories; it is decided by the "
-         "lockstep correspondence (engine L) and the C01 monitor on every observed history.", "5 C01",
-         "Coq invariants over the interleaving model + lockstep schedule replay (engine L) + history monitor"),
+         "schedule) the state is the latest write-back, under BlockOnFull enqueued = taken ++ queued as lists, and (C01_fold) "
+         "for programs without runtime registration the write-backs are the sequential fold of the per-action pipeline over "
+         "the taken actions, each starting from the state the previous one left. Runtime registration is decided by engine L. "
+         "The C01 monitor judges every observed history (engines L and F).", "5 C01",
+         "Coq invariants incl. the fold over histories + lockstep schedule replay (engine L) + free runs (engine F) + monitor"),
  "C02": ("Coq: for every policy and schedule what the reducer takes is an in-order subsequence of what entered the "
          "queue; sends append at the tail, recv takes the head. Partial: Inv < Enq < Ret per call is a step-level fact of "
          "the model checked by engine L (all three entry points, thunks), not yet a theorem over histories.", "5 C02",
